@@ -3,43 +3,96 @@ from props import *  # noqa: F401,F403
 # ------------------------------------------------------------------------------------------------
 # header-only API: nothing of the SDK is linked
 rc_bin("c10_rc", ["harness/c10_context.cc"], lib=False)
-# the thread programs once more under ThreadSanitizer (thorough tier only)
+# the thread programs once more under ThreadSanitizer (a small run in the quick tier, the full one in thorough)
 rc_bin("c10_rc_tsan", ["harness/c10_context.cc"], lib=False, san="tsan")
 PROPS["C10"] = dict(
     level_text="Model-based property tests over generated operation histories (rapidcheck, ASan/UBSan; real threads, "
-               "and ThreadSanitizer in the thorough tier, for the isolation clause): every explored history agreed with "
-               "a persistent-map model of the context family and an identity-matching stack model of the runtime "
+               "and ThreadSanitizer for the thread programs): every explored history agreed with "
+               "a persistent-map model of the context family and a per-token stack model of the runtime "
                "context. Exploration is the right level: the domain (all histories of SetValue/SetValues/Attach/"
                "Detach/Scope, all detach orders and depths) is unbounded and the models are cheap, so breadth of "
                "generated histories is what finds shadowing, ownership and unwinding defects; the thread clause is "
                "checked with per-thread oracles that hold under every schedule, not by enumerating schedules.",
-    technique="stateful model-based PBT (persistent map model; stack model with identity matching, most-recent-first, "
-              "unwind-above on out-of-order detach); every live context re-queried after every mutation; real-thread "
-              "runs with per-thread models (nondeterministic schedule, schedule-independent oracle)",
+    technique="stateful model-based PBT (persistent map model with a reachability model for values that only "
+              "contexts own; stack model: a token is matched by its context, most-recent-first, unwind-above on "
+              "out-of-order detach, and at most once); every live context re-queried after every mutation; "
+              "real-thread runs with per-thread models (nondeterministic schedule, schedule-independent oracle), "
+              "shared Context objects used by all threads at once under ThreadSanitizer",
     rule="Cases are choice streams decoded into context-family histories / attach-detach-scope programs.",
+    generators="ctx_map: 1..28 operations from {SetValue 30 (member call | RuntimeContext::SetValue(k,v,&ctx) | "
+               "trace::SetSpan), SetValues 20 (0..3 pairs), query 16, new root Context(k,v)/Context(container) 8, "
+               "copy 6, drop 6, chain of 8..63 SetValue calls 5, chain of 300..2099 SetValue calls 1 (at most two per "
+               "case; total length <= ~5200, far below the ~20000 nested releases an ASan stack takes)}; containers: "
+               "map, vector<pair<view,..>>, unordered_map, vector<pair<string,..>>, C array, nostd::span, "
+               "initializer_list; 18 pool keys (empty, NUL-containing, prefixes of each other, 300-byte, span/root "
+               "keys and near misses), half of the draws from 5 keys so that re-binding is frequent; values: all 8 "
+               "ContextValue alternatives; span / span context / baggage values are pool objects (the harness keeps "
+               "a reference) or, half of the time, objects created for that one binding and let go by the harness "
+               "right after the call. rt_stack / rt_threads: 1..5 initial derived contexts, then 1..40 (30) steps "
+               "from {query, attach, detach-top (explicit | by destruction), derive from current / from a held "
+               "context, attach burst (2..40, stride 0..3 through the family: the same context many times), detach "
+               "any token, destroy any token, new Scope (pool span | span owned by the scope's context only; context "
+               "held or not), end any Scope, attach a temporary copy, unwind burst, foreign-token steps with helper "
+               "threads (rt_stack), barriers / yields / shared-object steps (rt_threads: look-ups in, SetValue / "
+               "SetValues / RuntimeContext::SetValue on, and Attach of a Context object that the other threads use "
+               "at the same moment)}; three depth profiles; final unwind in stack order / creation order / scattered",
+    oracle="ctx_map: persistent-map model written from the statement (a derived context = its source + the new "
+           "bindings, most recent binding wins, sources untouched); every live context x every pool key after "
+           "every mutation (GetValue, HasKey, IsRootSpan, GetSpan); a value object that only contexts own must "
+           "exist while any existing context can reach a binding of it (visible or shadowed) and, when a context "
+           "returns it, is dereferenced and must say what was put into it (use-after-free = ASan). rt_*: stack "
+           "model - Attach pushes; presenting a token (Detach or its destructor) that never matched finds the "
+           "most recent frame holding an equal context and removes it and everything above, or changes nothing "
+           "when there is none (foreign / stale); a token whose Detach already succeeded changes nothing and "
+           "Detach answers false; GetCurrent(), look-ups through the runtime context, Tracer::GetCurrentSpan() "
+           "and GetSpan(GetCurrent()) compared after every step; after releasing everything the stack is empty. "
+           "Threads: each thread against its own model, owner markers never cross threads, shared Context objects "
+           "keep answering as built; data races are for ThreadSanitizer (threads-tsan, stack-tsan).",
     assumptions=[
         "keys are passed as non NUL-terminated views whose storage is overwritten and freed right after the call; "
         "the empty key is also passed as string_view{} (null data pointer)",
         "not specified, hence not asserted: HasKey for a key whose most recent binding is the empty alternative "
         "(GetValue must still return that empty binding); which of two equal keys inside ONE container wins "
-        "(never generated); the return value of Detach for a token of the empty context on an empty stack "
-        "(nothing may change)",
+        "(never generated); the return value of Detach for a token of the empty context on an empty stack, and "
+        "whether that call uses the token up (nothing may change; such a token is released right away)",
         "Context::operator== is asserted only where the repository documents it (a copy equals its source, contexts "
         "that answer differently are unequal, GetCurrent() equals the attached context, an empty stack yields "
         "Context()); otherwise it is observed and fed into the stack model, so SetValues(empty) may or may not be "
         "identical to its receiver",
+        "'matching Attach' is read per token: a token whose Detach succeeded has no matching Attach left, so "
+        "presenting it again (second Detach, destructor) must change nothing and Detach answers false (the "
+        "repository's test DetachWrongContext expects that false). The unchanged library pops another frame that "
+        "holds an equal context instead: OPEN known finding C10-detach-twice (the repair in "
+        "proposed_fixes/C10-detach-twice.diff adds a member to the API class Token - an ABI-v1 layout change, so it is "
+        "recorded rather than applied; fixed witness target detach_twice_witness); while it is listed as open the generator never presents such a token as long as an equal "
+        "context is on the stack (the step is skipped, the token is released later)",
+        "a token that never matched anything - including one whose own frame was unwound by an out-of-order detach "
+        "of a frame below it - is matched by the identity of its context, most recent frame first, as the "
+        "quantifier says ('a context attached more than once is matched most-recent-first'); a context-only token "
+        "cannot tell its own frame from another frame of an equal context",
         "tokens handed over from another thread belong to contexts that cannot be on the receiving thread's stack, "
         "so they are foreign under any reading of 'matching'",
+        "values that only contexts own: asserted is that they exist and are intact as long as a context that can "
+        "reach them exists (harness-held contexts, stack frames, and the context inside every live token / Scope); "
+        "that they are released together with their last context is measured (tag owned-value-released-with-its-"
+        "last-context vs owned-value-exists-without-any-context) but not asserted - the statement does not speak "
+        "about releasing. Likewise not asserted: that releasing an arbitrarily long chain of bindings works (the "
+        "binding list is released recursively; chains stay below a few thousand bindings)",
+        "only the default ThreadLocalContextStorage is examined; RuntimeContext::SetRuntimeContextStorage / custom "
+        "storages are outside 'the runtime context of a thread'",
         "rt_threads: the schedule is whatever the OS produces; each thread is checked against its own model after "
-        "every step, so a failure is a real violation under some schedule but a replay may need several attempts",
+        "every step, so a failure is a real violation under some schedule but a replay may need several attempts; "
+        "a data race on a shared Context object is visible to the ThreadSanitizer runs only",
         SC_NOTE,
     ],
     runs=[
+        # fixed witness of the open known finding C10-detach-twice: replay only (known/C10/), no search budget
+        run("detach-twice-witness", "c10_rc", "detach_twice_witness", "rc", None, None),
         run("map", "c10_rc", "ctx_map", "rc", dict(procs=5, cases=5000), dict(procs=16, cases=40000)),
         run("stack", "c10_rc", "rt_stack", "rc", dict(procs=6, cases=4000), dict(procs=16, cases=30000)),
         run("threads", "c10_rc", "rt_threads", "rc", dict(procs=4, cases=1500), dict(procs=8, cases=15000),
             deterministic=False),
-        run("threads-tsan", "c10_rc_tsan", "rt_threads", "rc", None, dict(procs=4, cases=3000),
+        run("threads-tsan", "c10_rc_tsan", "rt_threads", "rc", dict(procs=2, cases=500), dict(procs=4, cases=3000),
             deterministic=False),
         run("stack-tsan", "c10_rc_tsan", "rt_stack", "rc", None, dict(procs=2, cases=3000)),
     ],
